@@ -27,7 +27,7 @@ def gen_cfg(rng, restartable=True):
         "pair": rng.random() < 0.5,
         "xlabels": {k: (["_x_%s_%d" % (k, i) for i in range(rng.randint(1, 3))] if rng.random() < 0.3 else []) for k in XKINDS},
         "cell_family": rng.choice(["ortho", "ortho", "tri_pos", "tri_neg", "tri_mixed", "cubic", "tri_rotated", "ortho_rotated", "tri_big"] if not restartable else
-                                  ["ortho", "ortho", "tri_pos", "tri_neg", "tri_mixed", "cubic", "tri_big"]),
+                                  ["ortho", "ortho", "tri_pos", "tri_neg", "tri_mixed", "cubic", "tri_big", "tri_tiny"]),
         "table_container": rng.choice(["list", "ndarray", "tuple"]),
     }
 
@@ -354,7 +354,13 @@ def apply_op(pool, op, ctx, prefix="c09"):
             if imap:
                 kw["structure_index_map"] = {int(a): int(b) for a, b in imap.items()}
             guarded(prefix, "extend map=%s" % (imap,), R[o].extend, other_r, **kw)
-            M[o].extend(other_m, index_map=imap)
+            M[o].extend(other_m, index_map=dict(imap))
+            if imap and op.get("reuse_map") and j != o:
+                # the caller re-uses its dict object for a second extension with a fresh copy of the fragment
+                frag_r = guarded(prefix, "copy", other_r.copy)
+                guarded(prefix, "extend again with the same map object %s" % (imap,), R[o].extend, frag_r, **kw)
+                M[o].extend(other_m.clone(), index_map=dict(imap))
+                ctx.count("map_object_reused")
         return {o}
     if kind == "replicate":
         s = op["src"] % len(R)
@@ -386,6 +392,26 @@ def apply_op(pool, op, ctx, prefix="c09"):
         pool._replicate_blocks = order is not None
         pool._replicated = i
         return {i}
+    if kind == "assign":
+        # plain attribute assignment, as callers (and the command line) do: new type labels / new charges
+        o = op["obj"] % len(R)
+        n = len(M[o].atoms)
+        if op["what"] == "labels":
+            suffix = op["suffix"]
+            labs = [str(l) + suffix for l in R[o].atom_type_labels]
+            R[o].atom_type_labels = labs if op.get("as_list", True) else np.array(labs)
+            for a in M[o].atoms:
+                a.label = a.label + suffix
+        elif n:
+            vals = [round(float(v), 4) for v in (op["values"] * (n // len(op["values"]) + 1))[:n]]
+            if op["what"] == "charges":
+                R[o].charges = np.array(vals)
+            else:
+                for i, v in enumerate(vals):
+                    R[o].charges[i] = v
+            for a, v in zip(M[o].atoms, vals):
+                a.charge = float(v)
+        return {o}
     if kind == "replace":
         return _op_replace(pool, op, ctx, prefix)
     raise HarnessError("unknown op %r" % (op,))
@@ -495,7 +521,7 @@ def gen_ops(rng, nobj, nops, cfg, weights=None):
             mode = rng.choice(["default", "default", "map", "map", "repeat"])
             ops.append({"op": "extend", "obj": rng.randrange(cur), "other": rng.randrange(cur), "mode": mode,
                         "map_frac": rng.random(), "map_other": [rng.random() for _ in range(6)], "map_self": [rng.random() for _ in range(6)],
-                        "repeat": rng.randint(2, 3)})
+                        "repeat": rng.randint(2, 3), "reuse_map": rng.random() < 0.3})
         elif k == "replicate":
             ops.append({"op": "replicate", "src": rng.randrange(cur), "dims": rng.choice([[1, 1, 1], [2, 1, 1], [1, 2, 1], [1, 1, 2], [2, 1, 3], [1, 3, 2], [2, 2, 1]])})
             cur += 1
@@ -508,6 +534,9 @@ def gen_ops(rng, nobj, nops, cfg, weights=None):
                         "offsets": [[rng.uniform(-1.5, 1.5) for _ in range(3)] for _ in range(3)], "disjoint": rng.random() < 0.2,
                         "script": {"choice": {"kind": rng.choice(["first", "last", "mt"])}, "sample": {"kind": rng.choice(["first", "last", "mt"])}, "seed": rng.getrandbits(20)}})
             cur += 1
+        elif k == "assign":
+            ops.append({"op": "assign", "obj": rng.randrange(cur), "what": rng.choice(["labels", "labels", "charges", "charges_inplace"]),
+                        "suffix": "_v%d" % rng.randint(1, 9), "as_list": rng.random() < 0.7, "values": [round(rng.uniform(-2, 2), 4) for _ in range(5)]})
         elif k == "restart":
             ops.append({"op": "restart", "obj": rng.randrange(cur), "style": rng.choice(["full", "full", "atomic"]),
                         "via": rng.choice(["path", "file", "save_lmpdat"]), "fault": None})
